@@ -230,8 +230,18 @@ func lsAccepted(f []string) bool {
 				ln.From = &from
 			}
 			if f[4] != "nil" {
+				// entries k=v are matchLabels; entries k:Op:v1|v2 are matchExpressions
 				ln.Selector = &metav1.LabelSelector{MatchLabels: map[string]string{}}
 				for _, kv := range wire.DecList(f[4]) {
+					if p := strings.SplitN(kv, ":", 3); len(p) == 3 {
+						var vals []string
+						if p[2] != "" {
+							vals = strings.Split(p[2], "|")
+						}
+						ln.Selector.MatchExpressions = append(ln.Selector.MatchExpressions,
+							metav1.LabelSelectorRequirement{Key: p[0], Operator: metav1.LabelSelectorOperator(p[1]), Values: vals})
+						continue
+					}
 					k, v, _ := strings.Cut(kv, "=")
 					ln.Selector.MatchLabels[k] = v
 				}
@@ -381,7 +391,9 @@ func genRefs(seed uint64, n int, outp string) {
 		for i, k := 0, r.Intn(3); i < k; i++ {
 			local, parent := wire.Pick(r, nss), wire.Pick(r, nss)
 			mode := wire.Pick(r, []string{"nil", "nons", "All", "Same", "Same", "None", "Selector", "Selector", "Selector", "Unset", "Bogus"})
-			sel := wire.Pick(r, []string{"nil", "-", "team=a", "team=a", "team=a,env=prod", "kubernetes.io/metadata.name=" + local, "kubernetes.io/metadata.name=ns1"})
+			sel := wire.Pick(r, []string{"nil", "-", "team=a", "team=a", "team=a,env=prod", "kubernetes.io/metadata.name=" + local, "kubernetes.io/metadata.name=ns1",
+				"team:In:a|b", "team:In:b", "team:NotIn:a", "team:NotIn:b|c", "team:Exists:", "team:DoesNotExist:", "env:Exists:,team=a", "team:In:",
+				"team:Exists:a", "kubernetes.io/metadata.name:In:ns1|ns2", "team=a,env:NotIn:prod", "team:Bogus:a"})
 			nsl := wire.Pick(r, []string{"nil", "-", "team=a", "team=a,env=prod", "team=b", "kubernetes.io/metadata.name=ns1", "team=a,kubernetes.io/metadata.name=" + local})
 			out.Line("lsacc", local, parent, mode, sel, nsl)
 		}
@@ -443,8 +455,29 @@ func (s *refsSUT) oracleOp(f []string) string {
 				labels["kubernetes.io/metadata.name"] = wire.Dec(f[1])
 				ok := true
 				for _, kv := range wire.DecList(f[4]) {
+					if p := strings.SplitN(kv, ":", 3); len(p) == 3 {
+						val, has := labels[p[0]]
+						in := false
+						for _, x := range strings.Split(p[2], "|") {
+							in = in || (p[2] != "" && x == val)
+						}
+						switch p[1] {
+						case "In":
+							ok = ok && has && in
+						case "NotIn":
+							ok = ok && p[2] != "" && !(has && in)
+						case "Exists":
+							ok = ok && has && p[2] == ""
+						case "DoesNotExist":
+							ok = ok && !has && p[2] == ""
+						default:
+							ok = false
+						}
+						continue
+					}
 					k, v, _ := strings.Cut(kv, "=")
-					ok = ok && labels[k] == v
+					got, has := labels[k]
+					ok = ok && has && got == v
 				}
 				if ok {
 					return ""
